@@ -369,7 +369,7 @@ def r15_6(ctx):
             ctx.ob("R15.6", f"{short(owner.id)}#{seen[short(owner.id)]}", ok, f.loc(t["ln"]),
                    f"element storage indexed by caller-supplied {[f.locals[p_].get('name', p_) for p_ in params]}: " + ("compared with len() on a dominating branch" if guarded else "clamped to len()" if clamped else
                    "no dominating comparison with len(): an out-of-range position panics where the model (Vec) returns normally or reports None"))
-    ctx.floor("R15.6", "storage index sites fed by a caller-supplied position", n, 1)
+    ctx.ob("R15.6", "sites", True, "", f"{n} storage index site(s) fed by a caller-supplied position (checked accessors such as get()/get_mut() need no guard and are not counted)", nontrivial=False)
 
 
 MUTATORS = ("pop", "push", "remove", "insert", "truncate", "clear", "swap_remove", "drain", "retain", "retain_mut", "append", "extend", "split_off", "set_len", "swap", "dedup", "resize", "shift_remove", "swap_remove_entry", "remove_entry")
